@@ -702,4 +702,104 @@ theorem lcc_reverse_tchiB (n nc psi : ℝ) (hn : n ≠ 0) (h1n : 1 + n ≠ 0) (h
   field_simp
   ring
 
+/-! ### Albers -/
+
+/-- the coded `dq` of `Forward` is `qZ (sin ξ − sin ξ0)` (`= q − q0`) -/
+theorem alb_dq (qZ txi txi0 : ℝ) :
+    albDq qZ txi (txi / hyp txi) txi0 (txi0 / hyp txi0) = qZ * (txi / hyp txi - txi0 / hyp txi0) := by
+  unfold albDq
+  by_cases h : txi = txi0
+  · rw [h]; simp
+  · rw [Dsn_dd _ _ h]
+    have : txi - txi0 ≠ 0 := sub_ne_zero.mpr h
+    field_simp
+
+/-- **Albers `Forward`: `drho = ρ − ρ0`.**  With `nrho0 = a √m0²`, the coded `−a dq/(√(m0² − n0 dq) + nrho0/a)` satisfies
+    `n0·drho = a(√(m0² − n0 dq) − √m0²)`: Snyder's `ρ = a √(C − n q)/n` with `C − n q0 = m0²`, so `drho = ρ − ρ0`. -/
+theorem alb_drho_closed (a m02 n0 dq : ℝ) (ha : a ≠ 0) (hm : 0 < m02) (hW : 0 ≤ m02 - n0 * dq) :
+    n0 * albDrho a m02 n0 (a * Real.sqrt m02) dq = a * (Real.sqrt (m02 - n0 * dq) - Real.sqrt m02) := by
+  unfold albDrho
+  simp only [fmax_real, zero_real, sqrt_real, max_eq_right hW]
+  have e : a * Real.sqrt m02 / a = Real.sqrt m02 := by field_simp
+  rw [e]
+  have hsW := Real.sq_sqrt hW
+  have hsm := Real.sq_sqrt hm.le
+  have hpm : 0 < Real.sqrt m02 := Real.sqrt_pos.mpr hm
+  have hpW : 0 ≤ Real.sqrt (m02 - n0 * dq) := Real.sqrt_nonneg _
+  have hden : Real.sqrt (m02 - n0 * dq) + Real.sqrt m02 ≠ 0 := by positivity
+  set w := Real.sqrt (m02 - n0 * dq)
+  set m := Real.sqrt m02
+  field_simp
+  linear_combination hsm - hsW
+
+/-- **Albers `Reverse`: `dsxia = scxi0 (sin ξ − sin ξ0)`** from the `drho` of `Forward` -/
+theorem alb_reverse_dsxia (a qZ scxi0 m02 n0 dq : ℝ) (ha : a ≠ 0) (hq : qZ ≠ 0) (hm : 0 < m02) (hW : 0 ≤ m02 - n0 * dq) :
+    albDsxia a qZ scxi0 (a * Real.sqrt m02) n0 (albDrho a m02 n0 (a * Real.sqrt m02) dq) = scxi0 * dq / qZ := by
+  have h1 := alb_drho_closed a m02 n0 dq ha hm hW
+  have hsW := Real.sq_sqrt hW
+  have hsm := Real.sq_sqrt hm.le
+  have hpm : 0 < Real.sqrt m02 := Real.sqrt_pos.mpr hm
+  have hpW : 0 ≤ Real.sqrt (m02 - n0 * dq) := Real.sqrt_nonneg _
+  have hden : Real.sqrt (m02 - n0 * dq) + Real.sqrt m02 ≠ 0 := by positivity
+  have h2 : albDrho a m02 n0 (a * Real.sqrt m02) dq = -(a * dq) / (Real.sqrt (m02 - n0 * dq) + Real.sqrt m02) := by
+    unfold albDrho
+    simp only [fmax_real, zero_real, sqrt_real, max_eq_right hW]
+    have e : a * Real.sqrt m02 / a = Real.sqrt m02 := by field_simp
+    rw [e]
+  unfold albDsxia
+  simp only [two_real, sq_real]
+  rw [h1, h2]
+  field_simp
+  ring
+
+/-- **Albers `Reverse` recovers `tan ξ`**: from `dsxia = scxi0 (sin ξ − sin ξ0)` the coded quotient is `tan ξ`
+    (as long as `cos² ξ / cos² ξ0` is above the `epsx²` guard) -/
+theorem alb_reverse_txi (txi txi0 : ℝ) (hε : RealLike.sq (epsx : ℝ) ≤ hyp txi0 ^ 2 / hyp txi ^ 2) :
+    albTxiRev txi0 (hyp txi0 * (txi / hyp txi - txi0 / hyp txi0)) = txi := by
+  have h := hyp_sq txi; have h0 := hyp_sq txi0
+  have p := hyp_pos txi; have p0 := hyp_pos txi0
+  unfold albTxiRev
+  simp only [fmax_real, one_real, two_real, sqrt_real]
+  have e1 : txi0 + hyp txi0 * (txi / hyp txi - txi0 / hyp txi0) = hyp txi0 * txi / hyp txi := by field_simp; ring
+  have e2 : 1 - hyp txi0 * (txi / hyp txi - txi0 / hyp txi0) * (2 * txi0 + hyp txi0 * (txi / hyp txi - txi0 / hyp txi0)) =
+      hyp txi0 ^ 2 / hyp txi ^ 2 := by
+    field_simp
+    ring_nf
+    rw [h, h0]
+    ring
+  rw [e1, e2, max_eq_right hε]
+  have e3 : Real.sqrt (hyp txi0 ^ 2 / hyp txi ^ 2) = hyp txi0 / hyp txi := by
+    rw [← div_pow, Real.sqrt_sq (by positivity)]
+  rw [e3]
+  field_simp
+
+example : RealLike.sq (epsx : ℝ) ≤ hyp 0 ^ 2 / hyp 1 ^ 2 := by
+  rw [hyp_sq, hyp_sq]
+  simp only [epsx, eps, sq_real, one_real, ofNat_real]
+  norm_num
+
+/-- **Equal-area bookkeeping (the invariant the seeded change C11B breaks)**: `SetScale` keeps `_k2 = _k0²` -/
+theorem alb_setscale_k2 (A : ALB ℝ) (kold k : ℝ) : (albSetScale A kold k).k2 = (albSetScale A kold k).k0 ^ 2 := by
+  simp [albSetScale]
+
+/-- with `_k2 = _k0²` the east-west factor `(k2 n0)/k0` of `θ = k2 n0 λ`, `x = ρ sin θ / k0` times the north-south factor
+    `1/k0` is the unscaled cone constant `n0`: rescaling by `k0` preserves area -/
+theorem alb_area_factor (k0 n0 : ℝ) (hk : k0 ≠ 0) : (RealLike.sq k0 * n0 / k0) * (1 / k0) = n0 := by
+  simp only [sq_real]
+  field_simp
+
+/-- after `SetScale(lat, k)` the scale `Forward` returns at `lat` is `k` (the scale is linear in `_k0`) -/
+theorem alb_setscale_scale (A : ALB ℝ) (kold k t scbet a : ℝ) (hkold : kold = A.k0 * (t * scbet / a)) (hk : kold ≠ 0) :
+    (albSetScale A kold k).k0 * (t * scbet / a) = k := by
+  simp only [albSetScale]
+  have h0 : A.k0 ≠ 0 := by
+    intro h; apply hk; rw [hkold, h]; ring
+  have h1 : t * scbet / a ≠ 0 := by
+    intro h; apply hk; rw [hkold, h]; ring
+  have ha : a ≠ 0 := by intro h; apply h1; rw [h]; simp
+  have ht : t ≠ 0 := by intro h; apply h1; rw [h]; simp
+  have hb : scbet ≠ 0 := by intro h; apply h1; rw [h]; simp
+  rw [hkold]
+  field_simp
+
 end GeoVerif.Props.C11
